@@ -15,6 +15,10 @@ func init() {
 		Run:   runC11,
 		Trusted: []string{"Consul blocking queries with WaitIndex block until the index moves or the wait time passes", "sync/atomic.Value"},
 		Mutants: []mutant{
+			{Name: "empty common name indexed", File: "cert/store.go", Old: "\t\tif len(x509Cert.Subject.CommonName) > 0 {\n\t\t\tc.NameToCertificate[x509Cert.Subject.CommonName] = cert\n\t\t}\n", New: "\t\tc.NameToCertificate[x509Cert.Subject.CommonName] = cert\n", Expect: "C11.M4"},
+			{Name: "benign: common name guard written as != \"\"", File: "cert/store.go", Old: "\t\tif len(x509Cert.Subject.CommonName) > 0 {", New: "\t\tif x509Cert.Subject.CommonName != \"\" {", Expect: ""},
+			{Name: "unchanged-looking set not published", File: "cert/store.go", Old: "\tcs.BuildNameToCertificate()\n\ts.cs.Store(cs)\n", New: "\tcs.BuildNameToCertificate()\n\tif len(cs.NameToCertificate) == len(s.certstore().NameToCertificate) && len(certs) == len(s.certstore().Certificates) {\n\t\treturn\n\t}\n\ts.cs.Store(cs)\n", Expect: "C11.M5"},
+
 			{Name: "publish before the index is built", File: "cert/store.go", Old: "\tcs.BuildNameToCertificate()\n\ts.cs.Store(cs)", New: "\ts.cs.Store(cs)\n\tcs.BuildNameToCertificate()", Expect: "C11.A1"},
 			{Name: "two loads of the store in GetCertificate", File: "cert/source.go", Old: "cert, err = getCertificate(store.certstore(), clientHello, strictMatch)\n\t\t\tif cert != nil {", New: "cert, err = getCertificate(store.certstore(), clientHello, strictMatch)\n\t\t\tif len(store.certstore().Certificates) == 0 {\n\t\t\t\treturn nil, ErrNoCertsStored\n\t\t\t}\n\t\t\tif cert != nil {", Expect: "C11.A2"},
 			{Name: "remove the strict test at the end", File: "cert/store.go", Old: "\tif strictMatch {\n\t\treturn nil, nil\n\t}\n\treturn &cs.Certificates[0], nil", New: "\treturn &cs.Certificates[0], nil", Expect: "C11.M1"},
@@ -38,6 +42,8 @@ func runC11(c *Ctx) {
 	runC11A(c)
 	runC11M(c)
 	runC11M3(c)
+	runC11M4(c)
+	runC11M5(c)
 	runLoopPacing(c, "C11.L1", []string{"cert"}, 2)
 	runConsulWatchLoops(c, "C11.L1", []string{"cert"}, 1)
 	runC11L2(c)
